@@ -25,7 +25,14 @@ const (
 	vEncI32 = 4
 	vEncI16 = 5
 	vEncI8  = 6
+	vEncRec = 7 // *encode.TypeEncoder over a struct (reflection-driven codec)
 )
+
+// vRec is a fixed-size record as an application would store it behind a TypeEncoder.
+type vRec struct {
+	Off uint32
+	Len uint16
+}
 
 type vT struct {
 	n    int
@@ -37,6 +44,8 @@ type vT struct {
 	i32  []int32
 	i16  []int16
 	i8   []int8
+	rec  []vRec
+	tenc *encode.TypeEncoder
 	ret  []bool
 	optc int
 	st   *SlimTrie
@@ -55,6 +64,11 @@ func (c *vT) encoder() encode.Encoder {
 		return encode.I16{}
 	case vEncI8:
 		return encode.I8{}
+	case vEncRec:
+		if c.tenc == nil {
+			c.tenc, _ = encode.NewTypeEncoder(vRec{})
+		}
+		return c.tenc
 	}
 	return encode.U16{}
 }
@@ -73,6 +87,8 @@ func (c *vT) values() interface{} {
 		return c.i16
 	case vEncI8:
 		return c.i8
+	case vEncRec:
+		return c.rec
 	}
 	return c.u16
 }
@@ -106,6 +122,11 @@ func (c *vT) symValues() {
 		for i := range c.i16 {
 			c.i16[i] = vI16("v")
 		}
+	case vEncRec:
+		c.rec = make([]vRec, n)
+		for i := range c.rec {
+			c.rec[i] = vRec{Off: vU32("v"), Len: vU16("vl")}
+		}
 	case vEncI8:
 		c.i8 = make([]int8, n)
 		for i := range c.i8 {
@@ -129,6 +150,8 @@ func (c *vT) sameVal(i, j int) bool {
 		return c.i16[i] == c.i16[j]
 	case vEncI8:
 		return c.i8[i] == c.i8[j]
+	case vEncRec:
+		return vAnd(c.rec[i].Off == c.rec[j].Off, c.rec[i].Len == c.rec[j].Len)
 	}
 	return c.u16[i] == c.u16[j]
 }
@@ -157,6 +180,9 @@ func (c *vT) valEq(got interface{}, i int) bool {
 	case vEncI8:
 		x, ok := got.(int8)
 		return ok && x == c.i8[i]
+	case vEncRec:
+		x, ok := got.(vRec)
+		return ok && vAnd(x.Off == c.rec[i].Off, x.Len == c.rec[i].Len)
 	}
 	x, ok := got.(uint16)
 	return ok && x == c.u16[i]
